@@ -252,3 +252,41 @@ theorem head_after_parentsFirst (p : Params) (n : Node) (es : List Event) (hf : 
     exact hu s hv hd hne
 
 end GV.Chain
+
+namespace GV.Chain
+
+/-- a chain of registered blocks hanging below `par`: each block's parent is the one before it -/
+def Linked (n : Node) : Nat → List Blk → Prop
+  | _, [] => True
+  | par, b :: bs => n.blk b.id = some b ∧ b.parent = some par ∧ Linked n b.id bs
+
+theorem blockIds_map_block (bs : List Blk) : blockIds (bs.map Event.block) = bs.map (·.id) := by
+  induction bs with
+  | nil => rfl
+  | cons b bs ih => simp [blockIds, ih]
+
+theorem Linked.registered {n : Node} : ∀ {par : Nat} {bs : List Blk}, Linked n par bs →
+    Registered n (bs.map Event.block) := by
+  intro par bs
+  induction bs generalizing par with
+  | nil => intro _ e he; cases he
+  | cons b bs ih =>
+    intro h e he
+    rcases List.mem_cons.mp he with h1 | h1
+    · subst h1; exact h.1
+    · exact ih h.2.2 e h1
+
+theorem Linked.parentsFirst {n : Node} : ∀ {par : Nat} {bs : List Blk} {D : List Nat},
+    Linked n par bs → (par = 0 ∨ par ∈ D) → ParentsFirst D (bs.map Event.block) := by
+  intro par bs
+  induction bs generalizing par with
+  | nil => intro D _ _; trivial
+  | cons b bs ih =>
+    intro D h hp
+    refine ⟨?_, ih h.2.2 (Or.inr (List.mem_cons_self ..))⟩
+    intro par' hpar'
+    rw [h.2.1] at hpar'
+    cases hpar'
+    exact hp
+
+end GV.Chain
